@@ -372,6 +372,8 @@ example : rejectMsgs (parseLines ["define m 5 repeat with m from 1 to 2 begin pr
     some [(1, "Attempt to assign to constant \"m\"")] := by decide +kernel  -- assign-to-macro
 example : rejectMsgs (parseLines ["define m 5 repeat all as m begin print m end"]) =
     some [(1, "Attempt to assign to constant \"m\"")] := by decide +kernel  -- assign-to-macro
+example : rejectMsgs (parseLines ["define f begin stage begin end end f"]) =
+    some [(1, "Nesting not allowed here.")] := by decide +kernel  -- a block after `stage`
 example : rejectMsgs (parseLines ["hue xyz"]) =
     some [(1, "Unknown: \"xyz\"")] := by decide +kernel  -- undefined-name
 example : rejectMsgs (parseLines ["set lamp"]) =
